@@ -75,7 +75,9 @@ def r1_cutoff(chk):
                            f"the KD-tree bound is `{norm(ub)}`, not the max_dist parameter: the caller's cut-off is ignored")
             if fname == "prune":
                 ep = kwarg(q, "eps")
-                chk.decide(ep is not None and "eps" in names_in(ep), "C19.R1", f"{f.key}:eps-reaches-query", f.where(q), "eps=eps", "the eps parameter does not reach the KD-tree query")
+                chk.decide(ep is not None and norm(ep) == "eps", "C19.R1", f"{f.key}:eps-reaches-query", f.where(q), "eps=eps",
+                           f"the KD-tree query gets eps={norm(ep) if ep is not None else None}, not the eps parameter itself (KDTree's eps is the relative slack the docstring promises: "
+                           "no point closer than max_dist / (1 + eps) is dropped)")
         # masks: comparisons of the returned distances
         dd_names = set()
         for s in walk_no_nested(f.node):
@@ -153,12 +155,29 @@ def r3_weights(chk):
     for fname in ("aso", "atomic_indicator_field"):
         f = prog.func(f"{GB}:{fname}")
         av = [c for c in walk_no_nested(f.node) if isinstance(c, ast.Call) and call_name(c) == "np.average"]
-        chk.require(len(av) == 1, f"{fname}: np.average not found")
-        w = kwarg(av[0], "weights")
-        ax = kwarg(av[0], "axis")
-        ok = w is not None and norm(w) in ("ens.weights if weighted else None", "None if not weighted else ens.weights") and ax is not None and norm(ax) == "0"
-        chk.decide(ok, "C19.R3", f"{f.key}:weights-iff-weighted", f.where(av[0]), "np.average(..., axis=0, weights=ens.weights if weighted else None)",
-                   f"the conformer average uses weights={norm(w) if w is not None else None}, axis={norm(ax) if ax is not None else None}: expected the ensemble's weights exactly when `weighted`, over the conformer axis")
+        key = f"{f.key}:weights-iff-weighted"
+        if len(av) == 1:
+            w = kwarg(av[0], "weights")
+            ax = kwarg(av[0], "axis")
+            ok = w is not None and norm(w) in ("ens.weights if weighted else None", "None if not weighted else ens.weights") and ax is not None and norm(ax) == "0"
+            chk.decide(ok, "C19.R3", key, f.where(av[0]), "np.average(..., axis=0, weights=ens.weights if weighted else None)",
+                       f"the conformer average uses weights={norm(w) if w is not None else None}, axis={norm(ax) if ax is not None else None}: expected the ensemble's weights exactly when `weighted`, over the conformer axis")
+            continue
+        # accumulate-and-normalise idiom: sum_i w_i * x_i must be divided by sum_i w_i
+        asg = assignments(f.node)
+        wnames = {n for n, vals in asg.items() for v in vals if isinstance(v, ast.AST) and "ens.weights" in norm(v)}
+        acc = [s_ for s_ in walk_no_nested(f.node) if isinstance(s_, ast.AugAssign) and isinstance(s_.op, ast.Add) and (names_in(s_.value) & wnames or "ens.weights" in norm(s_.value))]
+        rets = [r for r in walk_no_nested(f.node) if isinstance(r, ast.Return)]
+        if not acc or len(rets) != 1:
+            raise AnalysisError(f"{fname}: neither np.average nor a weighted accumulation found - unknown idiom")
+        rv = rets[0].value
+        den = rv.right if isinstance(rv, ast.BinOp) and isinstance(rv.op, ast.Div) else None
+        den_txt = norm(den) if den is not None else None
+        ok = den is not None and (bool(names_in(den) & wnames) or "ens.weights" in den_txt) and ("sum" in den_txt)
+        cond = any(isinstance(v, ast.IfExp) and norm(v.test) == "weighted" for n in wnames for v in asg.get(n, []) if isinstance(v, ast.AST))
+        chk.decide(ok and cond, "C19.R3", key, f.where(rets[0]), f"weighted accumulation divided by the sum of the weights ({den_txt})",
+                   f"the conformer average accumulates w_i * x_i but divides by `{den_txt}`, not by the sum of the weights: with weighted=True and weights that do not sum to the number of "
+                   "conformers (Boltzmann weights summing to 1) the result is scaled wrongly")
     ae = prog.func(f"{GB}:aeif")
     c = [x for x in walk_no_nested(ae.node) if isinstance(x, ast.Call) and call_name(x) == "atomic_indicator_field"]
     ok = len(c) == 1 and kwarg(c[0], "weighted") is not None and norm(kwarg(c[0], "weighted")) == "weighted" and norm(c[0].args[2]) == "charges" and norm(c[0].args[3]) == "vdw_radii"
